@@ -22,7 +22,7 @@ func TestC09Rapid(t *testing.T) {
 	rec := evid.For("C09")
 	runRapid(t, 1000, 12000, func(rt *rapid.T) {
 		c := rec.Begin()
-		tc := newTwoChain(tcOpts{nExecutors: 1, otherFirst: rapid.IntRange(0, 1).Draw(rt, "otherFirst")})
+		tc := newTwoChain(tcOpts{nExecutors: 1, otherFirst: rapid.IntRange(0, 1).Draw(rt, "otherFirst"), lateBridgeInfo: rapid.IntRange(0, 3).Draw(rt, "lateBridgeInfo") == 0})
 		l2 := tc.l2
 		for _, u := range tc.users {
 			l2.Fund(u.Addr, coinOf("stake", 1000))
@@ -59,11 +59,11 @@ func TestC09Rapid(t *testing.T) {
 			return m
 		}
 		repeatSteps(rt, 40, func(i int) {
-			op := drawWeighted(rt, "op", []weighted{{"deposit", 6}, {"withdraw", 7}, {"transfer", 2}, {"reannounce", 2}, {"discarded", 2}, {"stale-announce", 2}})
+			op := drawWeighted(rt, "op", []weighted{{"deposit", 6}, {"withdraw", 7}, {"transfer", 2}, {"reannounce", 2}, {"discarded", 2}, {"stale-announce", 2}, {"bridge-info", 1}})
 			switch op {
 			case "deposit", "reannounce":
 				var msg *opchildtypes.MsgFinalizeTokenDeposit
-				if op == "deposit" || len(baseOf) == 0 {
+				if op == "deposit" {
 					to := tc.users[rapid.IntRange(0, 4).Draw(rt, "to")].Str
 					if rapid.IntRange(0, 3).Draw(rt, "badto") == 0 {
 						to = "bogus-recipient"
@@ -129,12 +129,11 @@ func TestC09Rapid(t *testing.T) {
 					msg = relayMsg(exec, p)
 				} else {
 					// an executor message that names another base denom for an already mapped L2 denom
-					var l2d string
-					for _, d := range []string{tcL2Denom(tc, "uinit"), tcL2Denom(tc, "uusdc")} {
-						if _, ok := baseOf[d]; ok {
-							l2d = d
-							break
-						}
+					// ... or, for a denom that has no mapping yet, names a base denom that is not the one the L2 denom
+					// derives from: whatever the first deposit of a denom names stays its base denom
+					l2d := rapid.SampledFrom([]string{tcL2Denom(tc, "uinit"), tcL2Denom(tc, "uusdc")}).Draw(rt, "redenom")
+					if _, ok := baseOf[l2d]; !ok {
+						c.Class("first-deposit-of-a-denom-names-another-base-denom")
 					}
 					reTo := tc.users[rapid.IntRange(0, 4).Draw(rt, "to")].Str
 					if rapid.IntRange(0, 2).Draw(rt, "rebad") == 0 {
@@ -187,6 +186,12 @@ func TestC09Rapid(t *testing.T) {
 				_ = supplyBefore
 				tc.logf("%s(%s to=%s base=%s) -> refunds=%d", op, msg.Amount, short(msg.To), msg.BaseDenom, len(ws))
 				shape += op[:1]
+			case "bridge-info":
+				// the executor registers the bridge info (for the first time, if the L2 started without it)
+				if !tc.infoSet {
+					c.Class("bridge-info-registered-after-withdrawals-were-recorded")
+				}
+				tc.registerBridgeInfo()
 			case "stale-announce":
 				// the executor re-delivers an already processed sequence number, this time naming a denom that has no
 				// mapping yet (or a native token) and some base denom: answered as a no-op, which registers nothing
